@@ -419,7 +419,6 @@ fn check_file(clean: bool) -> impl Fn(&Case, &mut CaseInfo) -> CheckResult + Syn
 pub fn run(ctx: &Ctx) -> ! {
     let mut rep = Report::new(ctx, "exploration");
     rep.assume("a checkpoint is used for at most one revert and not after a revert to an older checkpoint (Checkpoint is neither Clone nor Copy and revert consumes it)");
-    rep.assume("ephemeral-session revert (SessionPerspective is private and reachable only through a Policy) is exercised by the runtime-engine harness, not here");
     let dom = "LinearPerspective of 4 kinds (unrooted / at a stored segment head / opened mid-segment / merge perspective over a written braid index) x 0..40 ops of fact insert/delete (incl. live keys), add_command, checkpoint, revert(to any outstanding checkpoint); after every op all exact+prefix queries of the key universe, head_address and includes(id) for every command id ever added vs the model; after revert vs the snapshot taken at checkpoint; finally the perspective is written and the stored segment's commands, per-command facts and fact index are compared; non-trivial = a revert after >=1 later write or added command";
     rep.explore(
         "linear_clean_checkpoint",
@@ -442,5 +441,6 @@ pub fn run(ctx: &Ctx) -> ! {
         ctx.pick(300, 6_000),
         check_file(true),
     );
+    crate::c13s::add_parts(&mut rep, ctx);
     rep.finish()
 }
